@@ -1318,6 +1318,7 @@ def state_execute(case, drv, max_dis=6, version=None):
             g = T.label(tg)
         group = None
         raised = None
+        post_setup_error = None
         nm = call.get('asset')
         where = (('top', T.top[nm]) if nm in T.top else ('sub',) + T.nested[nm]) if nm is not None else None
         with Quiet(), T:
@@ -1344,8 +1345,25 @@ def state_execute(case, drv, max_dis=6, version=None):
                     run_setup_call(W, call)
                 elif o == 'io_optimize':
                     group = [{'call': 'setupSplit', 'g': g, 'tmp': None}] if call.get('interval') else [{'call': 'setupPortfolio', 'g': g}]
-                    run_setup_call(W, call)
                     last, res = None, None
+                    # the real shortcut; an exception AFTER its set-up part (solver, read-out) leaves the state of the set-up
+                    mode = 'setup_split_optim_problem' if call.get('interval') else 'setup_optim_problem'
+                    done = []
+                    orig_m = getattr(W.portf, mode)
+
+                    def flagged(*a_, _o=orig_m, **kw_):
+                        r_ = _o(*a_, **kw_)
+                        done.append(1)
+                        return r_
+                    W.portf.__dict__[mode] = flagged
+                    try:
+                        eao.io.optimize(W.portf, tg, W.prices(call['prices']), split_interval_size=call.get('interval'))
+                    except Exception as e_io:
+                        if not done:
+                            raise
+                        post_setup_error = e_io
+                    finally:
+                        W.portf.__dict__.pop(mode, None)
                 elif o == 'optimize':
                     group = []
                     if last is not None:
@@ -1398,7 +1416,11 @@ def state_execute(case, drv, max_dis=6, version=None):
             group = group + [{'call': 'fillLevel', 'a': T.top[n]} for _, n, _, _ in fills if n in T.top]
         steps.append({'i': i, 'call': call0, 'group': group, 'raised': raised, 'reads': reads, 'obs': T.observe(),
                       'compare_reads': o not in ('make_slp',)})
-        if raised is not None and not any(m in str(raised) for m in _GRID_MSG) and not isinstance(raised, AttributeError):
+        if post_setup_error is not None and fills:
+            aborted = 'exception-in-read-out:' + err_class(post_setup_error)
+            steps[-1]['unmodelled'] = True
+            break
+        if raised is not None and not any(m in str(raised) for m in _GRID_MSG):
             aborted = 'exception:' + err_class(raised)       # an exception the slot model does not know: state after it is not modelled
             steps[-1]['unmodelled'] = True
             break
